@@ -1,11 +1,11 @@
 #!/usr/bin/env python3
-"""regenerate the six seed tables of DESIGN.md section 10 from seeded*/descriptions.json + meta.json (run after a reseed + mkmeta)"""
+"""regenerate the seven seed tables of DESIGN.md section 10 from seeded*/descriptions.json + meta.json (run after a reseed + mkmeta)"""
 import re, subprocess, sys
 P = '/verif/DESIGN.md'
 s = open(P).read()
 HEAD = '| id | change | needs, to manifest | caught by |\n|----|--------|--------------------|-----------|\n'
 marks = [('## 10. Seeded changes', 'seeded'), ('### Round 2', 'seeded2'), ('### Round 3', 'seeded3'), ('### Round 4', 'seeded4'),
-         ('### Round 5', 'seeded5'), ('### Round 6', 'seeded6')]
+         ('### Round 5', 'seeded5'), ('### Round 6', 'seeded6'), ('### Round 7', 'seeded7')]
 for mark, d in marks:
     i = s.find(mark)
     if i < 0:
